@@ -1,16 +1,26 @@
+// gbcheck decides the tetromino properties by static analysis of /repo's current
+// working tree. Usage:
+//
+//	gbcheck <C01..C26> quick|thorough     run one property check
+//	gbcheck <id> --explain <replay.json>  print the diagnostic of one finding
+//	gbcheck world [filter]                debugging: print the abstract machine
 package main
 
 import (
 	"fmt"
 	"os"
+	"os/exec"
 	"runtime/debug"
 	"runtime/pprof"
 	"sort"
+	"strconv"
 	"strings"
 	"time"
 
 	"verif/sa/internal/ai"
+	"verif/sa/internal/checks"
 	"verif/sa/internal/load"
+	"verif/sa/internal/report"
 	"verif/sa/internal/world"
 )
 
@@ -21,22 +31,36 @@ func main() {
 	}
 	t0 := time.Now()
 	debug.SetGCPercent(800)
-	dir := os.Getenv("GBCHECK_DIR")
-	if dir == "" {
-		dir = "/verif/sa"
+	verifDir := os.Getenv("VERIF_DIR")
+	if verifDir == "" {
+		verifDir = "/verif"
 	}
+	dir := verifDir + "/sa"
 	if pf := os.Getenv("GBPROF"); pf != "" {
 		f, _ := os.Create(pf)
 		pprof.StartCPUProfile(f)
 		defer pprof.StopCPUProfile()
 	}
-	switch os.Args[1] {
-	case "world":
-		p, err := load.Load(dir)
+	if os.Getenv("GBCHECK_INT32") != "" {
+		ai.IntIs32 = true
+	}
+	cmd := os.Args[1]
+	if len(os.Args) >= 4 && os.Args[2] == "--explain" {
+		b, err := os.ReadFile(os.Args[3])
 		if err != nil {
 			fmt.Fprintln(os.Stderr, err)
 			os.Exit(2)
 		}
+		fmt.Println(string(b))
+		fmt.Println("To re-run the rule on the current tree: ./check", cmd, "quick")
+		return
+	}
+	p, err := load.Load(dir)
+	if err != nil {
+		failClosed(cmd, verifDir, "load", err)
+	}
+	switch cmd {
+	case "world":
 		fmt.Printf("loaded packages=%d funcs=%d instrs=%d in %v\n", len(p.Pkgs), len(p.Funcs), p.NumInstr, time.Since(t0))
 		w, err := world.Build(p)
 		if err != nil {
@@ -50,7 +74,7 @@ func main() {
 		kinds := map[string]int{}
 		for _, e := range w.Entries {
 			kinds[e.Kind]++
-			if e.Kind != "table" || len(os.Args) > 2 {
+			if e.Kind != "table" || len(os.Args) > 3 {
 				fmt.Printf("  entry %-14s %s\n", e.Kind, e.Name)
 			}
 		}
@@ -70,8 +94,78 @@ func main() {
 				fmt.Println("  inv", k)
 			}
 		}
-	default:
-		fmt.Fprintln(os.Stderr, "unknown command", os.Args[1])
+		return
+	}
+	fn, ok := checks.Registry[cmd]
+	if !ok {
+		fmt.Fprintln(os.Stderr, "unknown property", cmd, "- known:", checks.IDs())
 		os.Exit(2)
 	}
+	tier := "quick"
+	if len(os.Args) > 2 {
+		tier = os.Args[2]
+	}
+	if tier != "quick" && tier != "thorough" {
+		fmt.Fprintln(os.Stderr, "tier must be quick or thorough")
+		os.Exit(2)
+	}
+	w, err := world.Build(p)
+	if err != nil {
+		failClosed(cmd, verifDir, "world", err)
+	}
+	ctx := &checks.Ctx{P: p, W: w, Tier: tier}
+	var res *report.Result
+	func() {
+		defer func() {
+			if rec := recover(); rec != nil {
+				res = report.New(cmd, "other", "static analysis")
+				res.Fail("undecided", "internal", "checker-panic", "", fmt.Sprintf("the checker panicked: %v\n%s", rec, debug.Stack()))
+			}
+		}()
+		res = fn(ctx)
+	}()
+	if len(w.Undecided) > 0 {
+		res.Extra["world_undecided"] = w.Undecided
+	}
+	seed, _ := strconv.Atoi(os.Getenv("VERIF_SEED"))
+	meta := report.Meta{Tier: tier, Seed: seed, Wall: time.Since(t0), VerifDir: verifDir,
+		Packages: len(p.Pkgs), Functions: len(p.Funcs), Instrs: p.NumInstr, Commit: repoState(),
+		Cmd: "./check " + cmd + " " + tier,
+		WorldInfo: map[string]interface{}{"objects": len(w.It.Objects), "entries": len(w.Entries), "inference_rounds": w.Rounds, "invariant_cells": len(w.Inv), "int_width": intWidth()}}
+	os.Exit(report.Finish(res, meta))
+}
+
+func intWidth() int {
+	if ai.IntIs32 {
+		return 32
+	}
+	return 64
+}
+
+func repoState() string {
+	out, err := exec.Command("git", "-C", "/repo", "rev-parse", "--short", "HEAD").Output()
+	if err != nil {
+		return "unknown"
+	}
+	s := strings.TrimSpace(string(out))
+	if st, err := exec.Command("git", "-C", "/repo", "status", "--porcelain").Output(); err == nil && len(strings.TrimSpace(string(st))) > 0 {
+		s += "+dirty"
+	}
+	return s
+}
+
+// failClosed reports that the analysis could not see its subject.
+func failClosed(prop, verifDir, stage string, err error) {
+	fmt.Fprintln(os.Stderr, err)
+	if _, ok := checks.Registry[prop]; !ok {
+		os.Exit(2)
+	}
+	res := report.New(prop, "other", "static analysis")
+	res.Explanation = "the program could not be loaded/analysed; a checker that cannot see its subject must not pass"
+	res.Fail("unresolved", "load", stage+"-failed", "", err.Error())
+	tier := "quick"
+	if len(os.Args) > 2 {
+		tier = os.Args[2]
+	}
+	os.Exit(report.Finish(res, report.Meta{Tier: tier, VerifDir: verifDir, Cmd: "./check " + prop + " " + tier}))
 }
